@@ -27,16 +27,53 @@ class NeverConvict(ConvictionPolicy):
         pass
 
 
-class ConnHarness:
-    VARS = ("free", "highest", "inflight", "reqs", "orphans", "srv", "st", "rid", "got", "errs", "defunct", "closed")
+class HandlerRaises(Exception):
+    """Raised by a request handler on purpose (the connection must isolate handler failures)."""
 
-    def __init__(self, max_id, init_free, reqs):
+
+def install_counting_future():
+    """Replace cassandra.cluster.ResponseFuture by a subclass that reports every invocation of the
+    connection-level handler (_set_result) to the current harness and, for chosen requests, raises
+    afterwards when the delivery was a connection error."""
+    import cassandra.cluster as cc
+    base = getattr(cc, "_verif_orig_ResponseFuture", None) or cc.ResponseFuture
+    cc._verif_orig_ResponseFuture = base
+
+    class CountingFuture(base):
+        def _set_result(self, host, connection, pool, response):
+            h = ConnHarness.current
+            r = None
+            if h is not None:
+                r = h.req_of_future(self)
+                if r is not None and isinstance(response, ConnectionShutdown):
+                    h.errs[r] += 1
+            base._set_result(self, host, connection, pool, response)
+            if h is not None and r in h.raisers and isinstance(response, ConnectionShutdown):
+                raise HandlerRaises("handler of request %s raises" % r)
+    cc.ResponseFuture = CountingFuture
+
+
+class ConnHarness:
+    VARS = ("free", "highest", "inflight", "reqs", "orphans", "srv", "st", "rid", "got", "errs", "cps", "pages", "cperr",
+            "defunct", "closed")
+    current = None
+    DSE_V1 = 65
+
+    def __init__(self, max_id, init_free, reqs, cp_reqs=(), raisers=()):
         self.max_id, self.init_free, self.req_names = max_id, init_free, sorted(reqs)
+        self.cp_reqs = set(cp_reqs)
+        self.raisers = set(raisers)
+        ConnHarness.current = self
+        install_counting_future()
         self.world = SimWorld()
-        self.node = self.world.add_node(FakeNode("10.0.0.1"))
+        self.node = self.world.add_node(FakeNode("10.0.0.1", versions=(3, 4, self.DSE_V1)))
         profile = ExecutionProfile(load_balancing_policy=RoundRobinPolicy(), retry_policy=FallthroughRetryPolicy(),
                                    request_timeout=10.0)
-        self.cluster = make_cluster(self.world, ["10.0.0.1"], execution_profiles={EXEC_PROFILE_DEFAULT: profile},
+        from cassandra.cluster import ContinuousPagingOptions
+        cp_profile = ExecutionProfile(load_balancing_policy=RoundRobinPolicy(), retry_policy=FallthroughRetryPolicy(),
+                                      request_timeout=10.0, continuous_paging_options=ContinuousPagingOptions())
+        self.cluster = make_cluster(self.world, ["10.0.0.1"], protocol_version=self.DSE_V1,
+                                    execution_profiles={EXEC_PROFILE_DEFAULT: profile, "cp": cp_profile},
                                     conviction_policy_factory=NeverConvict)
         self.session = self.cluster.connect()
         self.cluster.executor.inline = False
@@ -69,9 +106,19 @@ class ConnHarness:
 
     # ------------------------------------------------------------ actions
     def _client(self, r):
-        f = self.session.execute_async(SimpleStatement("SELECT %d" % r), timeout=10.0)
+        f = self.session.execute_async(SimpleStatement("SELECT %d" % r), timeout=10.0,
+                                       execution_profile="cp" if r in self.cp_reqs else EXEC_PROFILE_DEFAULT)
         self.futures[r] = f
         return f
+
+    def req_of_future(self, fut):
+        for r, f in self.futures.items():
+            if f is fut:
+                return r
+        try:
+            return int(fut.query.query_string.split()[1])
+        except Exception:
+            return None
 
     def do(self, act):
         name, r, rid = act["name"], act["r"], act["id"]
@@ -96,8 +143,7 @@ class ConnHarness:
         self.cbs[r] += 1
 
     def _eb(self, r, exc):
-        if isinstance(exc, ConnectionShutdown):
-            self.errs[r] += 1
+        pass
 
     def _pending(self, rid, q):
         for p in self.node.pending:
@@ -114,6 +160,33 @@ class ConnHarness:
         self.node.respond_rows(p, [("tag", wire.T_INT)], [[wire.w_int(tag)]])
 
     act_RespondLate = act_Respond
+
+    def _page(self, rid, last):
+        cands = [p for p in self.node.pending if p.conn is self.conn and p.frame.stream == rid]
+        assert len(cands) == 1, cands
+        p = cands[0]
+        tag = int(p.req["query"].split()[1])
+        seq = getattr(p, "_pages", 0) + 1
+        try:
+            p._pages = seq
+        except AttributeError:
+            self._page_counts[id(p)] = seq
+        body = wire.body_rows([("tag", wire.T_INT)], [[wire.w_int(tag)]], cp_seq=seq, cp_last=last)
+        if last:
+            self.node.take(p)
+        self.node.send(p.conn, p.frame.version, p.frame.stream, wire.RESULT, body)
+
+    def act_FirstPage(self, r, rid):
+        self._page(rid, False)
+
+    def act_Page(self, r, rid):
+        self._page(rid, False)
+
+    def act_OnlyPage(self, r, rid):
+        self._page(rid, True)
+
+    def act_LastPage(self, r, rid):
+        self._page(rid, True)
 
     def act_Timeout(self, r, rid):
         f = self.futures[r]
@@ -163,8 +236,12 @@ class ConnHarness:
                     st[r] = "exc:" + type(e).__name__
             elif f._final_result is not cassandra.cluster._NOT_SET:
                 st[r] = "done"
-                rows = f._final_result or []
-                got[r] = frozenset(row[0] for row in rows)
+                if f._continuous_paging_session is not None:
+                    sess = f._continuous_paging_session
+                    got[r] = frozenset(row[0] for (n, rows, err) in sess._page_queue if err is None for row in rows)
+                else:
+                    rows = f._final_result or []
+                    got[r] = frozenset(row[0] for row in rows)
             else:
                 st[r] = "sent"
         reqs = {}
@@ -172,10 +249,24 @@ class ConnHarness:
             reqs[i] = self._req_of_cb(cb)
         srv = frozenset((p.frame.stream, int(p.req["query"].split()[1])) for p in self.node.pending
                         if p.conn is c and p.req.get("op") == "QUERY")
+        cps, pages, cperr = {}, {r: 0 for r in self.req_names}, {r: 0 for r in self.req_names}
+        for r, f in self.futures.items():
+            sess = f._continuous_paging_session
+            if sess is None:
+                continue
+            for sid, s2 in c._continuous_paging_sessions.items():
+                if s2 is sess:
+                    cps[sid] = r
+            pages[r] = sum(1 for (n, rows, err) in sess._page_queue if err is None)
+            cperr[r] = sum(1 for (n, rows, err) in sess._page_queue if err is not None)
+        for sid, s2 in c._continuous_paging_sessions.items():
+            if sid not in cps:
+                cps[sid] = None
         return {
             "free": tuple(c.request_ids), "highest": c.highest_request_id, "inflight": c.in_flight,
             "reqs": reqs, "orphans": frozenset(c.orphaned_request_ids), "srv": srv, "st": st, "rid": rid,
-            "got": got, "errs": dict(self.errs), "defunct": bool(c.is_defunct), "closed": bool(c.is_closed),
+            "got": got, "errs": dict(self.errs), "cps": cps, "pages": pages, "cperr": cperr,
+            "defunct": bool(c.is_defunct), "closed": bool(c.is_closed),
         }
 
     def shutdown(self):
@@ -196,6 +287,7 @@ def spec_view(state):
         "reqs": fn(state["reqs"]), "orphans": frozenset(state["orphans"]),
         "srv": frozenset(tuple(m) for m in state["srv"]), "st": fn(state["st"]), "rid": fn(state["rid"]),
         "got": {k: frozenset(v) for k, v in fn(state["got"]).items()}, "errs": fn(state["errs"]),
+        "cps": fn(state["cps"]), "pages": fn(state["pages"]), "cperr": fn(state["cperr"]),
         "defunct": state["defunct"], "closed": state["closed"],
     }
 
@@ -210,9 +302,9 @@ def diff(spec, real, skip=()):
     return out
 
 
-def replay(constants, states):
+def replay(constants, states, raisers=()):
     """Replay one behaviour (list of spec states, first = Init). Returns None or a divergence dict."""
-    h = ConnHarness(constants["MaxId"], constants["InitFree"], constants["Reqs"])
+    h = ConnHarness(constants["MaxId"], constants["InitFree"], constants["Reqs"], constants.get("CPReqs", ()), raisers)
     try:
         d = diff(spec_view(states[0]), h.project())
         if d:
@@ -242,6 +334,8 @@ def _post(p, reqs):
         "srv": sorted(list(m) for m in p["srv"]),
         "st": [p["st"][r] for r in reqs], "rid": [p["rid"][r] for r in reqs],
         "got": [sorted(p["got"][r]) for r in reqs], "errs": [p["errs"][r] for r in reqs],
+        "cps": sorted([i, r] for i, r in p["cps"].items()), "pages": [p["pages"][r] for r in reqs],
+        "cperr": [p["cperr"][r] for r in reqs],
         "defunct": p["defunct"], "closed": p["closed"],
     }
 
@@ -249,7 +343,9 @@ def _post(p, reqs):
 def record(constants, rng, max_events=40, p_fail=0.04):
     """Drive the real objects with random enabled operations; return the list of events."""
     reqs = sorted(constants["Reqs"])
-    h = ConnHarness(constants["MaxId"], constants["InitFree"], reqs)
+    raisers = [r for r in reqs if rng.random() < 0.3]
+    h = ConnHarness(constants["MaxId"], constants["InitFree"], reqs, constants.get("CPReqs", ()), raisers)
+    max_pages = constants.get("MaxPages", 1)
     events = []
     try:
         while len(events) < max_events:
@@ -257,21 +353,30 @@ def record(constants, rng, max_events=40, p_fail=0.04):
             dead = c.is_closed or c.is_defunct
             ops = []
             for r in reqs:
-                if r not in h.started and not dead and c.in_flight < c.max_request_id:
+                if r not in h.started and not dead and c.in_flight < c.max_request_id and \
+                        (c.request_ids or c.highest_request_id < c.max_request_id):
                     ops.append(("Borrow", r))
                 if r in h.borrowed:
                     ops.append(("Send", r))
                 f = h.futures.get(r)
-                if f is not None and not dead and f._final_exception is None and \
+                if f is not None and not dead and r not in h.cp_reqs and f._final_exception is None and \
                         f._final_result is cassandra.cluster._NOT_SET and f._timer is not None and not f._timer.canceled:
                     ops.append(("Timeout", r))
             if not dead:
                 for p in h.node.pending:
                     if p.conn is c:
-                        ops.append(("Respond", p))
-                        ops.append(("Respond", p))
-                if rng.random() < p_fail:
-                    ops.append((rng.choice(["SocketError", "Close"]), None))
+                        tag = int(p.req["query"].split()[1])
+                        if tag in h.cp_reqs:
+                            sent = getattr(p, "_pages", 0)
+                            if sent + 1 < max_pages:
+                                ops.append(("Page", (p, False)))
+                            ops.append(("Page", (p, True)))
+                        else:
+                            ops.append(("Respond", p))
+                            ops.append(("Respond", p))
+                npend = len(c._requests)
+                if rng.random() < p_fail * (1 + 4 * max(0, npend - 1)):       # fail more often when several are pending
+                    ops = [(rng.choice(["SocketError", "Close"]), None)]
             if not ops:
                 break
             op, arg = rng.choice(ops)
@@ -281,6 +386,12 @@ def record(constants, rng, max_events=40, p_fail=0.04):
                     ev["id"] = arg.frame.stream
                     ev["q"] = int(arg.req["query"].split()[1])
                     h.act_Respond(None, ev["id"])
+                elif op == "Page":
+                    p, last = arg
+                    ev["id"] = p.frame.stream
+                    ev["q"] = int(p.req["query"].split()[1])
+                    ev["last"] = last
+                    h._page(ev["id"], last)
                 elif op in ("SocketError", "Close"):
                     getattr(h, "act_" + op)(None, -1)
                 else:
